@@ -415,3 +415,15 @@ def classify(name, args, cex, rep):
     if op in ("sub", "sub_keep_root"):
         return "get_sub_tree"
     return None
+
+
+def pathlen_to_root_from(root, tipname):
+    """distance from `root` (any node) down to the named tip below it"""
+    for x in root.traverse():
+        if x.name == tipname and not x.children:
+            d = 0
+            while x is not root:
+                d = d + x.length
+                x = x.parent
+            return d
+    raise KeyError(tipname)
